@@ -700,6 +700,7 @@ mod os {
     use std::ffi::{CStr, OsString};
     use std::fs::File;
     use std::io::{self, Read, Write};
+    use std::os::unix::ffi::OsStrExt;
     use std::os::unix::io::AsRawFd;
     use std::time::{Duration, Instant};
 
@@ -721,6 +722,12 @@ mod os {
                     for (name, value) in env {
                         posix::os_to_cstring(name)?;
                         posix::os_to_cstring(value)?;
+                        // "A=B" set to "C" would reach the child as A set
+                        // to "B=C": such a name cannot be delivered (the
+                        // system's own entries may begin with '=')
+                        if name.as_bytes().iter().skip(1).any(|&b| b == b'=') {
+                            return Err(io::Error::from(io::ErrorKind::InvalidInput).into());
+                        }
                     }
                 }
                 let child_env = config.env.as_deref().map(format_env);
@@ -1052,6 +1059,11 @@ mod os {
                             win32::ERROR_BAD_PATHNAME as i32,
                         )
                         .into());
+                    }
+                    // "A=B" set to "C" would be read as A set to "B=C"
+                    // (names like "=C:" begin with '=' legitimately)
+                    if name.encode_wide().skip(1).any(|c| c == '=' as u16) {
+                        return Err(io::Error::from(io::ErrorKind::InvalidInput).into());
                     }
                 }
             }
